@@ -50,6 +50,10 @@ pub struct Fault {
     /// task faults: the task's handle is registered with try_join (joined if finished) instead of join
     #[serde(default)]
     pub try_join: bool,
+    /// right before the fault the callback spawns a task that would send a token to a neighbour when polled: a module
+    /// that panicked polls nothing any more (and one that falls silent there does not send either)
+    #[serde(default)]
+    pub after_spawn: bool,
 }
 
 #[derive(Debug, Clone, Serialize, Deserialize, PartialEq)]
@@ -147,6 +151,15 @@ impl Node {
     fn inject(&self, site: Site) -> bool {
         if let Some(_f) = self.fault_at(site) {
             fired(self.idx, site);
+            if _f.after_spawn {
+                let (silent, idx, gate) = (self.silent.clone(), self.idx, self.neighbours()[0].clone());
+                tokio::spawn(async move {
+                    if silent.load(Ordering::SeqCst) {
+                        std::future::pending::<()>().await;
+                    }
+                    send(Message::default().kind(K_TOKEN).id(0).src([idx as u8; 6]), gate.as_str());
+                });
+            }
             match self.mode {
                 Mode::Panic if _f.via_send => {
                     send(Message::default().kind(K_TOKEN), "via");
@@ -530,16 +543,19 @@ pub fn placements(model: &Model, baseline: &[Entry]) -> Vec<Fault> {
                     if after_send && !matches!(site, Site::Handle(_)) {
                         continue;
                     }
-                    v.push(Fault { module: m, site, catching, after_send, via_send: false, try_join: false });
+                    v.push(Fault { module: m, site, catching, after_send, via_send: false, try_join: false, after_spawn: false });
+                    if !after_send && matches!(site, Site::Handle(k) if k % 2 == 0) {
+                        v.push(Fault { module: m, site, catching, after_send, via_send: false, try_join: false, after_spawn: true });
+                    }
                     if !after_send && !catching && matches!(site, Site::Handle(k) if k % 3 == 0) {
-                        v.push(Fault { module: m, site, catching, after_send, via_send: true, try_join: false });
+                        v.push(Fault { module: m, site, catching, after_send, via_send: true, try_join: false, after_spawn: false });
                     }
                 }
             }
         }
         for j in 0..model.task_steps[m] {
-            v.push(Fault { module: m, site: Site::Task(j), catching: false, after_send: false, via_send: false, try_join: false });
-            v.push(Fault { module: m, site: Site::Task(j), catching: false, after_send: false, via_send: false, try_join: true });
+            v.push(Fault { module: m, site: Site::Task(j), catching: false, after_send: false, via_send: false, try_join: false, after_spawn: false });
+            v.push(Fault { module: m, site: Site::Task(j), catching: false, after_send: false, via_send: false, try_join: true, after_spawn: false });
         }
     }
     v
@@ -613,6 +629,9 @@ pub fn cmd(args: &Args) -> Report {
                 rep.count(key, 1);
                 if fl.catching {
                     rep.count("faults_with_catching_stereotype", 1);
+                }
+                if fl.after_spawn {
+                    rep.count("faults_right_after_spawning_a_task_that_would_send", 1);
                 }
                 if fl.try_join {
                     rep.count("faults_in_try_joined_task", 1);
